@@ -175,6 +175,58 @@ fn digit_eval<U: UInt>(c: &(Pat, u64), obs: &mut Obs) -> Result<(), String> {
     Ok(())
 }
 
+/// Model-based history check: a generated program of op-assign steps is run twice, once through
+/// the assign / reference trait forms and once through the const inherent twins; after every step
+/// the accumulator (or the panic outcome, which ends the program) must be identical, and in the
+/// wrapping (rel) profile also equal to the reference integer reduced modulo 2^BITS.
+fn program_eval<T: Forms>(c: &(Pat, Vec<(u8, Pat, u32)>), obs: &mut Obs) -> Result<(), String> {
+    let mut via_traits: T = ld(&c.0);
+    let mut via_inherent: T = via_traits;
+    let mut model = via_traits.z();
+    let w = T::W as u64;
+    obs.nt_if(c.1.len() >= 3);
+    for (step, (opc, operand, amount)) in c.1.iter().enumerate() {
+        let b: T = ld(operand);
+        let s = amount % T::W;
+        let form = 4 + (opc >> 7); // `a op= b` or `a op= &b`
+        let (x, y) = (via_traits, via_inherent);
+        let (t, i, m): (Outcome<Pat>, Outcome<Pat>, Option<Z>) = match opc % 10 {
+            0 => (oc(|| T::f_add(x, b, form)), oc(|| y.c_add(b)), Some(model.add(&b.z()))),
+            1 => (oc(|| T::f_sub(x, b, form)), oc(|| y.c_sub(b)), Some(model.sub(&b.z()))),
+            2 => (oc(|| T::f_mul(x, b, form)), oc(|| y.c_mul(b)), Some(model.mul(&b.z()))),
+            3 => (oc(|| T::f_div(x, b, form)), oc(|| y.c_div(b)), None),
+            4 => (oc(|| T::f_rem(x, b, form)), oc(|| y.c_rem(b)), None),
+            5 => (oc(|| T::f_bitand(x, b, form)), oc(|| y.c_bitand(b)), None),
+            6 => (oc(|| T::f_bitor(x, b, form)), oc(|| y.c_bitor(b)), None),
+            7 => (oc(|| T::f_bitxor(x, b, form)), oc(|| y.c_bitxor(b)), None),
+            8 => (oc(|| T::f_shift_u32(x, true, s, form)), oc(|| y.c_shl(s)), Some(model.shl(s as u64))),
+            _ => (oc(|| T::f_shift_u32(x, false, s, form)), oc(|| y.c_shr(s)), Some(model.shr_floor(s as u64))),
+        };
+        ck!(format!("step {step} (opcode {}): assign form vs inherent method", opc % 10), t.clone(), i.clone());
+        match t {
+            Outcome::Panic(_) => {
+                obs.label("program ended by a panic (same step in both interpreters)");
+                return Ok(());
+            }
+            Outcome::Returned(p) => {
+                via_traits = ld(&p);
+                via_inherent = via_traits;
+                match m {
+                    // arithmetic steps: in a wrapping build (and in a debug build when no panic
+                    // occurred) the accumulator is the exact result reduced modulo 2^BITS
+                    Some(z) => {
+                        let z = z.wrap(w, T::SIGNED);
+                        ck!(format!("step {step}: accumulator equals the model"), via_traits.z(), z.clone());
+                        model = z;
+                    }
+                    None => model = via_traits.z(),
+                }
+            }
+        }
+    }
+    Ok(())
+}
+
 fn jobs_for<U, I>(jobs: &mut Vec<Job>)
 where
     U: UInt + Int<I = I> + Forms,
@@ -199,6 +251,13 @@ where
         ctx.run("u", ctx.budget(q(QUICK / 2), FACTOR), seqs(), folds_eval::<U>);
         ctx.run("i", ctx.budget(q(QUICK / 2), FACTOR), seqs(), folds_eval::<I>);
     }));
+    jobs.push(Job::new(job_name::<U>("program"), move |ctx| {
+        // histories of 0..=12 op-assign steps; small operands are frequent so that products and sums stay representable for a while
+        let operand = prop_oneof![2 => gen::pattern(sh), 3 => (0u64..9).prop_map(move |x| Pat(Z::from_u64(x).to_le_wrapped(sh.bytes))), 1 => gen::boundary(sh)];
+        let progs = || (gen::pattern(sh), proptest::collection::vec((any::<u8>(), operand.clone(), gen::amount(sh)), 0..=12));
+        ctx.run("u", ctx.budget(q(QUICK / 2), FACTOR), progs(), program_eval::<U>);
+        ctx.run("i", ctx.budget(q(QUICK / 2), FACTOR), progs(), program_eval::<I>);
+    }));
     jobs.push(Job::new(job_name::<U>("fromstr_default_digit"), move |ctx| {
         ctx.run("misc_u", ctx.budget(q(QUICK / 4), FACTOR), gen::pattern(sh), misc_eval::<U>);
         ctx.run("misc_i", ctx.budget(q(QUICK / 4), FACTOR), gen::pattern(sh), misc_eval::<I>);
@@ -217,7 +276,7 @@ fn main() {
     runner::main(
         Property {
             id: "C17",
-            rule: "Run in both build profiles. Operands weighted towards overflowing inputs (structured pairs, boundary x boundary, zero divisors); shift amounts from {0, 1, W-1, W, W+1, T::MIN, T::MAX, values above u32::MAX, uniform}; sequences of 0..=8 elements for the folds; digit operands incl. 0 and MAX. Oracle (the property's own): Outcome(trait form) == Outcome(reference form), including the panic outcome (catch_unwind): all four value/reference combinations and both op-assign forms of + - * / % & | ^ against the const inherent twin; -a / -&a / !a / !&a against neg / not; for each of the twelve primitive amount types the five reference/assign forms of << and >> against the by-value form, and the by-value form against shl/shr(s as u32) when 0 <= s <= u32::MAX; bnum-typed amounts below BITS (BUint/BInt of the same digit family with 1, 3 and N digits) against shl/shr; Sum/Product by value and by reference against the explicit left fold from ZERO/ONE; Default; PartialEq/PartialOrd/Ord methods against the const twins; FromStr against from_str_radix(.., 10) (value and error kind); Add/Div/Rem<digit> against the same operation on from_digit(d) (Add only when representable, as the property states). NON-TRIVIAL: every case exercises non-default forms; the labelled classes count panic outcomes. distinct = distinct (profile, job, inputs) by 64-bit hash.",
+            rule: "Run in both build profiles. Operands weighted towards overflowing inputs (structured pairs, boundary x boundary, zero divisors); shift amounts from {0, 1, W-1, W, W+1, T::MIN, T::MAX, values above u32::MAX, uniform}; sequences of 0..=8 elements for the folds; digit operands incl. 0 and MAX. Oracle (the property's own): Outcome(trait form) == Outcome(reference form), including the panic outcome (catch_unwind): all four value/reference combinations and both op-assign forms of + - * / % & | ^ against the const inherent twin; -a / -&a / !a / !&a against neg / not; for each of the twelve primitive amount types the five reference/assign forms of << and >> against the by-value form, and the by-value form against shl/shr(s as u32) when 0 <= s <= u32::MAX; bnum-typed amounts below BITS (BUint/BInt of the same digit family with 1, 3 and N digits) against shl/shr; Sum/Product by value and by reference against the explicit left fold from ZERO/ONE; generated PROGRAMS of 0..=12 op-assign steps (+= -= *= /= %= &= |= ^= <<= >>= with value and reference right-hand sides) interpreted once through the trait forms and once through the inherent methods, compared after every step (a panic must occur at the same step) and against the reference integer for the arithmetic steps; Default; PartialEq/PartialOrd/Ord methods against the const twins; FromStr against from_str_radix(.., 10) (value and error kind); Add/Div/Rem<digit> against the same operation on from_digit(d) (Add only when representable, as the property states). NON-TRIVIAL: every case exercises non-default forms; the labelled classes count panic outcomes. distinct = distinct (profile, job, inputs) by 64-bit hash.",
             assumptions: &[
                 "this property is about agreement between forms; the correctness of the inherent methods themselves is C01-C08",
                 "bnum-typed shift amounts >= BITS and Add<digit> on overflow are outside the property",
